@@ -76,6 +76,12 @@ func (s *Syncer) instanceID() string {
 	return n
 }
 
+// noteTxnWrite is called by the iterators for every change made to the LMDB
+// in the current LoadOnce/SendOnce write transaction.
+func (s *Syncer) noteTxnWrite() {
+	s.txnWrote = true
+}
+
 // generationID returns the generation ID.
 // This concept is currently not used, but it is a required part of the
 // filenames, so we just return the minimum requirement (start with 'G',
